@@ -1225,6 +1225,15 @@ def call_ext(interp, dotted: str, args: List[V], kwargs: Dict[str, V], node, cc)
             lo = grid_subscript(interp, x, Term("slice", [Const(None), Num(-1), Const(None)]), node)
             return interp.binop(ast.Sub(), hi, lo, node)
         return Term("diff", args)
+    if d == "numpy.diff" and len(args) == 1 and (not kwargs or (set(kwargs) <= {"axis", "n"} and
+                                                             (("axis" not in kwargs) or (isinstance(kwargs["axis"], Num) and kwargs["axis"].p.is_const() and kwargs["axis"].p.as_const() in (0, -1))) and
+                                                             (("n" not in kwargs) or (isinstance(kwargs["n"], Num) and kwargs["n"].p == Poly.const(1))))):
+        x = args[0] if isinstance(args[0], Grid) else to_grid(interp, args[0])
+        if isinstance(x, Grid) and x.ndim == 1:
+            hi = grid_subscript(interp, x, Term("slice", [Num(1), Const(None), Const(None)]), node)
+            lo = grid_subscript(interp, x, Term("slice", [Const(None), Num(-1), Const(None)]), node)
+            return interp.binop(ast.Sub(), hi, lo, node)
+        return Term("diff", args)
     if d == "numpy.gradient" and len(args) == 1 and not kwargs:
         g = args[0]
         if isinstance(g, ObjV) and g.ext == "ndarray":
